@@ -1,0 +1,45 @@
+//go:build verif
+
+package websocket
+
+import (
+	"io"
+	"net"
+)
+
+// Verification hooks (build tag "verif" only). Every function calls the real
+// code; nothing is re-implemented here.
+
+// VerifNewConn wraps newConn. With compress set, the per-message-deflate
+// functions are installed exactly as Upgrade/Dial do after a successful
+// negotiation of permessage-deflate (server.go / client.go).
+func VerifNewConn(conn net.Conn, isServer bool, readBufSize, writeBufSize int, compress bool) *Conn {
+	c := newConn(conn, isServer, readBufSize, writeBufSize)
+	if compress {
+		c.newCompressionWriter = compressNoContextTakeover
+		c.newDecompressionReader = decompressNoContextTakeover
+	}
+	return c
+}
+
+// VerifMaskBytes is maskBytes (the build's variant: word-at-a-time unless appengine).
+func VerifMaskBytes(key [4]byte, pos int, b []byte) int {
+	return maskBytes(key, pos, b)
+}
+
+// VerifTruncWriter exposes truncWriter: Write goes through the real method,
+// Held returns the bytes currently withheld (at most four).
+type VerifTruncWriter struct{ tw *truncWriter }
+
+func VerifNewTruncWriter(w io.WriteCloser) *VerifTruncWriter {
+	return &VerifTruncWriter{tw: &truncWriter{w: w}}
+}
+
+func (t *VerifTruncWriter) Write(p []byte) (int, error) { return t.tw.Write(p) }
+
+func (t *VerifTruncWriter) Held() []byte {
+	return append([]byte(nil), t.tw.p[:t.tw.n]...)
+}
+
+// VerifWriteBufLen returns len(c.writeBuf) (write buffer size + maxFrameHeaderSize).
+func VerifWriteBufLen(c *Conn) int { return len(c.writeBuf) }
